@@ -59,6 +59,11 @@ func c19Profiles(tier string) []Profile {
 				Letter{"Flush", func(w *harness.World) { w.Flush() }},
 				Letter{"Evict", func(w *harness.World) { w.Evict("x") }},
 				Letter{"Reopen", func(w *harness.World) { w.Reopen(true); ensureX(w) }},
+				Letter{"SetColl(ctl-name)+Flush", func(w *harness.World) {
+					// a root record whose JSON needs escaping must still be the one read on open
+					w.SetCollection(yName, "nil")
+					w.Flush()
+				}},
 				Letter{"RemoveColl(x)+Flush+Reopen", func(w *harness.World) {
 					// the file then ends in the smallest possible root record
 					w.RemoveCollection("x")
